@@ -22,14 +22,17 @@ def shapeNested0 (tbl : List (LKey × Option HandlerId)) : Shape → Prop
   | _ => True
 
 theorem out_net {tbl : List (LKey × Option HandlerId)} {defs : Defs} {ek : List String}
+    {p pc k : String → Bool} {dt : Bool}
     (hdefs : defsNetOK tbl defs = true) {sh : Shape} {cs : List Chunk}
-    (h : Out tbl defs ek sh cs) : shapeNested0 tbl sh → netChunks cs = shapeNet tbl sh := by
+    (h : Out tbl defs ek p pc k dt sh cs) : shapeNested0 tbl sh → netChunks cs = shapeNet tbl sh := by
   induction h with
-  | tokNone t => intro _; rfl
-  | tokOne t f _ => intro _; simp [netChunks, chunkDelta, shapeNet]
+  | tokNone t _ => intro _; rfl
+  | tokOne t f _ _ => intro _; simp [netChunks, chunkDelta, shapeNet]
+  | ctokNone t _ => intro _; rfl
+  | ctokOne t f _ _ => intro _; simp [netChunks, chunkDelta, shapeNet]
   | valueTok t cs _ ih => intro _; simpa [shapeNet] using ih trivial
   | valueNode cs _ ih => intro _; simpa [shapeNet] using ih trivial
-  | node kind d cs hl _ ih =>
+  | node kind d cs _ hl _ ih =>
     intro _
     have := lookupDef_netOK hdefs hl
     have e := ih this.2
@@ -94,7 +97,7 @@ theorem out_net {tbl : List (LKey × Option HandlerId)} {defs : Defs} {ek : List
 theorem walkChunks_net (cfg : Cfg σ) (hdefs : defsNetOK cfg.layout cfg.defs = true)
     (tree : Val) (s : σ) (cs : List Chunk) (s' : σ) (h : walkChunks cfg tree s = .ok (cs, s')) :
     netChunks cs = 0 := by
-  have := out_net hdefs (walkChunks_out cfg tree s cs s' h) trivial
+  have := out_net hdefs (walkChunks_outAny cfg tree s cs s' h) trivial
   simpa [shapeNet] using this
 
 /-! ### phase 2: the level after `flushAll` -/
@@ -338,10 +341,12 @@ theorem flushAll_level (cfg : Cfg σ) (ht : tableNetOK cfg.layout = true) :
       simp [bufNet, netChunks, chunkDelta]
 
 theorem out_chunkOK {tbl : List (LKey × Option HandlerId)} {defs : Defs} {ek : List String}
-    {sh : Shape} {cs : List Chunk} (h : Out tbl defs ek sh cs) : ∀ c ∈ cs, ChunkOK tbl c := by
+    {p pc k : String → Bool} {dt : Bool}
+    {sh : Shape} {cs : List Chunk} (h : Out tbl defs ek p pc k dt sh cs) : ∀ c ∈ cs, ChunkOK tbl c := by
   induction h with
-  | tokNone t => simp
-  | tokOne t f _ => simp [ChunkOK]
+  | tokNone t _ => simp
+  | tokOne t f _ _ => simp [ChunkOK]
+  | ctokOne t f _ _ => simp [ChunkOK]
   | layoutSome m h nd hl => simp [ChunkOK, hl]
   | rulesCons r rs c1 c2 _ _ ih1 ih2 =>
     intro c hc; rcases List.mem_append.mp hc with hc | hc
@@ -370,7 +375,7 @@ theorem unparseWith_level (cfg : Cfg σ) (hdefs : defsNetOK cfg.layout cfg.defs 
   · cases h
   · rename_i chunks s' hw
     simp only [Except.ok.injEq] at h
-    have hout := walkChunks_out cfg tree s chunks s' hw
+    have hout := walkChunks_outAny cfg tree s chunks s' hw
     have hl := flushAll_level cfg ht chunks none [] 0 (out_chunkOK hout) (by simp)
     have hn := walkChunks_net cfg hdefs tree s chunks s' hw
     rw [h] at hl
